@@ -38,11 +38,11 @@ TEMPLATES = {
     "filter_map": "{{ objs|map(attribute='a')|list }}{{ seq|map('string')|join }}",
     "filter_sort": "{{ objs|sort(attribute='a')|map(attribute='a')|list }}{{ seq|sort|list }}",
     "filter_len": "{{ seq|length }}{{ sized|length }}{{ seq|count }}",
-    "filter_first": "{{ seq|first }}{{ seq|last }}{{ seq|list|length }}",
+    "filter_first": "{{ seq|first }}{{ lst|last }}{{ seq|list|length }}",
     "filter_sum": "{{ seq|sum }}{{ objs|sum(attribute='a') }}",
     "filter_groupby": "{% for k, v in objs|groupby('a') %}{{ k }}:{{ v|length }};{% endfor %}",
     "filter_select": "{{ seq|select('odd')|list }}{{ objs|selectattr('a')|list|length }}{{ seq|reject('odd')|list }}",
-    "filter_unique": "{{ seq|unique|list }}{{ seq|min }}{{ seq|max }}{{ seq|reverse|list }}",
+    "filter_unique": "{{ seq|unique|list }}{{ seq|min }}{{ seq|max }}{{ seq|list|reverse|list }}",
     "filter_batch": "{{ seq|batch(2)|list }}{{ seq|slice(2)|list }}",
     "filter_default": "{{ f()|default('d') }}{{ o.a|default('d') }}{{ missing|default(g(2)) }}",
     "filter_dictsort": "{{ d|dictsort }}{{ d|items|list }}{{ d|length }}",
@@ -84,14 +84,14 @@ ASYNC_ONLY = {
     "a_for": "{% for x in aseq %}{{ x }}{{ af() }}{% endfor %}",
     "a_for_loopvars": "{% for x in aseq %}{{ loop.length }}{{ loop.last }}{{ x }}{% endfor %}",
     "a_filters": "{{ aseq|list }}{{ aseq|join(',') }}{{ aseq|map('string')|list }}{{ aseq|first }}{{ aseq|sum }}",
-    "a_select": "{{ aseq|select('odd')|list }}{{ aseq|unique|list }}{{ aseq|batch(2)|list }}",
+    "a_select": "{{ aseq|select('odd')|list }}{{ aseq|reject('odd')|list }}{{ aseq|list|batch(2)|list }}",
     "a_for_filter": "{% for x in aseq if x != af() %}{{ x }}{% endfor %}",
 }
 
 
 class Node:
     def __init__(self, v, c=()):
-        self.v, self.c = v, list(c)
+        self.v, self.c = v, c
 
 
 def mkdata(plan, async_=False):
@@ -158,8 +158,15 @@ def do_render(env, name, plan, entry, async_):
 
 def shard(arg):
     name, async_, pairs = arg
+    cold = name.endswith("@cold")
+    name = name.split("@")[0]
     p = core.Part()
     env = make_env(async_)
+    if not cold:
+        # warm-up: module caches (Template._module) are filled, so every later run sees the same events
+        for n in TEMPLATES if not async_ else list(TEMPLATES) + list(ASYNC_ONLY):
+            if n not in HELPERS:
+                do_render(env, n, e5.Plan(0), "render_async" if async_ else "render", async_)
     entries = ENTRIES_ASYNC if async_ else ENTRIES_SYNC
     others = [n for n in ("out_call", "child", "import") if n != name][:2]
     mode = "async" if async_ else "sync"
@@ -172,17 +179,25 @@ def shard(arg):
 
     for entry in entries:
         base_plan = e5.Plan(0)
+        if cold:
+            env = make_env(async_)
         st, base = do_render(env, name, base_plan, entry, async_)
         p.evals += 1
         if st != "ok":
             p.violation(f"C38/clean-run-raised/{name}", {"msg": f"{name} {mode} {entry}: clean run raised {base!r}", "script": script(entry, 0)})
             continue
+        N = base_plan.n  # read now: a cached module keeps calling the data functions it was built with
         baselines = {n: clean(n, entry) for n in [name] + others}
-        N = base_plan.n
+        if cold:
+            # after a cold first render the caches are warm: baselines are taken from that state
+            baselines = {n: clean(n, entry) for n in [name] + others}
         p.count("fault_positions_total", N)
         for k in range(1, N + 1):
             boom = e5.Boom(f"boom@{k}")
             plan = e5.Plan(k, boom)
+            if cold:
+                # the fault may hit while the imported/included module is being built for the first time
+                env = make_env(async_)
             st, got = do_render(env, name, plan, entry, async_)
             p.evals += 1
             fired = plan.fired_at
@@ -238,8 +253,11 @@ def signals(p, env, entry, async_):
     import jinja2
 
     cases = [
-        ("attr-AttributeError", "{{ o.a }}|{{ o.a is defined }}", "attr", AttributeError("x"), "|False"),
-        ("item-KeyError", "{{ o['k'] }}|{{ o['k'] is defined }}", "item", KeyError("k"), "|False"),
+        ("attr-AttributeError", "[{{ o.a }}]", "attr", AttributeError("x"), "[]"),
+        ("attr-AttributeError-defined", "{{ o.a is defined }}", "attr", AttributeError("x"), "False"),
+        ("item-KeyError", "[{{ o['k'] }}]", "item", KeyError("k"), "[]"),
+        ("item-KeyError-defined", "{{ o['k'] is defined }}", "item", KeyError("k"), "False"),
+        ("item-TypeError", "[{{ o['k'] }}]", "item", TypeError("k"), "[]"),
         ("item-IndexError", "{{ o['k'] }}|", "item", IndexError("k"), "|"),
         ("call-StopIteration", "[{{ f() }}]", "call", StopIteration(), "[]"),
     ]
@@ -290,6 +308,7 @@ def run(ctx: core.Ctx):
     ]
     pairs = not ctx.quick
     shards = [(n, False, pairs) for n in TEMPLATES if n not in HELPERS]
+    shards += [(n + "@cold", a, False) for n in ("import", "from_import", "include_noctx", "child", "include") for a in (False, True)]
     shards += [(n, True, pairs) for n in list(TEMPLATES) + list(ASYNC_ONLY) if n not in HELPERS]
     ctx.pmap(shard, shards)
     ctx.cov["template_shapes"] = len(shards)
